@@ -149,6 +149,8 @@ def body_under(case):
     check(np.all(np.abs(Bp - model) <= 1e-9 * mag + 1e-300), "under:prediction", "B_pred is not the model's capture of X")
     if kind not in ("min", "max"):
         pairs = rows_sharing_a_solution(B, X, sv.lb, sv.ub, sv.Ap, scale=sv.extent)
+        # one intensity vector can serve two targets that are closer than twice the requested tolerance: only pairs further apart count
+        pairs = [(i, j) for i, j in pairs if float(np.linalg.norm(w * (B[i] - B[j]))) > 2.1 * eps]
         check(not pairs, "under:rows-share-a-solution", f"rows {pairs} have different targets but bit-identical intensities (option {kind})")
     labs = sv.labels() + [f"opt:{kind}", f"entry:{case['entry']}", "W" if W is not None else "noW"] + (["ramp-rows"] if any("ramp" in r["kind"] for r in case["rows"]) else []) + (["proportional-sources"] if case.get("proportional") else []) + (["whole-number-twin"] if twin_done else [])
     goal = goal_fn(kind, opt)
